@@ -69,7 +69,10 @@ type wsWriter struct {
 }
 
 func (w *wsWriter) Write(p []byte) (int, error) { return w.buf.Write(p) }
-func (w *wsWriter) Close() error                { w.f.writes = append(w.f.writes, append([]byte{}, w.buf.Bytes()...)); return nil }
+func (w *wsWriter) Close() error {
+	w.f.writes = append(w.f.writes, append([]byte{}, w.buf.Bytes()...))
+	return nil
+}
 
 func (f *fakeWS) NextReader() (int, io.Reader, error) {
 	if len(f.msgs) == 0 {
